@@ -643,6 +643,132 @@ def ra_search(ctx, n):
     return len(found)
 
 
+# ------------------------------------------------------------------------------------------
+# nested operations at every INSTRUCTION boundary (harness/src/bin/p_nested.rs) against the
+# outcomes of the SC model over every model-step boundary.  Independent of the hook points.
+NESTED_KINDS = ('outcome', 'drops', 'panic', 'hang')
+
+
+def nested_model_outcomes(configs):
+    """allowed (outer ret, inner ret, drained values) per (outer, inner, fill) from the model"""
+    scen, owner = [], []
+    for (o, i, fill) in configs:
+        for k in range(0, 9):
+            scen.append(build('nested', fill, [o, i], [(0, 0)] * k + [(1, 0)] * 12 + [(0, 0)] * 12))
+            owner.append((o, i, fill))
+    res = run_model(scen)
+    allowed = {}
+    for cfg, s, r in zip(owner, scen, res):
+        rets, mainrets = {0: None, 1: None}, []
+        for l in r['trace']:
+            if l[1] == 23:
+                if l[0] == -1:
+                    mainrets.append(l[5])
+                else:
+                    rets[l[0]] = l[5]
+        ok = r['finished'] == [1, 1] and not any(r['panicked'])
+        out = (rets[0], rets[1], tuple(x for x in mainrets[cfg[2]:] if x != 0)) if ok else ('model-incomplete',)
+        allowed.setdefault(cfg, set()).add(out)
+    return allowed
+
+
+def nested_run_one(cfg, kstart=1, timeout=45):
+    o, i, fill = cfg
+    rc, out, _ = common.sh([common.bin_path('p_nested'), o, i, str(fill), str(kstart)], timeout=timeout)
+    rows, begun, panic, done = [], None, None, False
+    for l in out.split('\n'):
+        p = l.split()
+        if not p:
+            continue
+        if p[0] == 'B':
+            begun = int(p[1])
+        elif p[0] == 'K':
+            k, reached = int(p[1]), int(p[2])
+            oi, ii, di, ci = p.index('O'), p.index('I'), p.index('D'), p.index('C')
+            rows.append({'k': k, 'reached': reached, 'outcome': (int(p[oi + 1]), int(p[ii + 1]), tuple(int(x) for x in p[di + 1:ci])),
+                         'created': int(p[ci + 1]), 'once': int(p[ci + 2]), 'never': int(p[ci + 3]), 'twice': int(p[ci + 4])})
+            if not reached:
+                done = True
+        elif p[0] == 'P':
+            panic = {'k': int(p[1]), 'in_handler': int(p[2]), 'message': ' '.join(p[3:])}
+    return {'cfg': cfg, 'rows': rows, 'begun': begun, 'panic': panic, 'done': done, 'rc': rc, 'tail': out[-300:]}
+
+
+def nested_sweep(ctx, want):
+    """want: the kinds of failure that are violations of the calling property"""
+    from concurrent.futures import ThreadPoolExecutor
+    names = {'s': 'send', 'r': 'recv'}
+    configs = [(o, i, fill) for o in 'sr' for i in 'sr' for fill in range(0, SLOTS + 1)]
+    if not ctx.driver('channel', *DRIVER):
+        return
+    allowed = nested_model_outcomes(configs)
+    with ThreadPoolExecutor(max_workers=12) as ex:
+        results = list(ex.map(nested_run_one, configs))
+    total, hits, seen_out, incomplete = 0, {}, {}, []
+    for res in results:
+        o, i, fill = cfg = res['cfg']
+        what0 = '%s() interrupted by a handler running %s(), channel holding %d value(s)' % (names[o], names[i], fill)
+
+        def report(kind, k, what, extra=None):
+            hits[kind] = hits.get(kind, 0) + 1
+            if kind in want and hits[kind] <= 3:
+                case = {'nested': {'outer': o, 'inner': i, 'fill': fill, 'k': k}}
+                case.update(extra or {})
+                ctx.violation({'monitor': 'nested-' + kind, 'outer': o, 'inner': i, 'fill': fill, 'k': k}, what, case)
+        for row in res['rows']:
+            total += 1
+            ctx.evaluations += 1
+            seen_out.setdefault(cfg, set()).add(row['outcome'])
+            if row['outcome'] not in allowed[cfg]:
+                report('outcome', row['k'], '%s after %d instructions: outer returned %d, inner returned %d, drained %s - not an outcome of the model at any '
+                       'step boundary (allowed: %s)' % (what0, row['k'], row['outcome'][0], row['outcome'][1], list(row['outcome'][2]),
+                                                       sorted(allowed[cfg])), {'observed': row['outcome'], 'allowed': sorted(allowed[cfg])})
+            if row['never'] or row['twice'] or row['once'] != row['created']:
+                report('drops', row['k'], '%s after %d instructions: of %d payloads %d were never dropped and %d dropped more than once'
+                       % (what0, row['k'], row['created'], row['never'], row['twice']))
+        if res['panic']:
+            pk = res['panic']
+            report('panic', pk['k'], '%s after %d instructions: %s panicked: %s' % (what0, pk['k'], 'the inner operation' if pk['in_handler']
+                                                                                  else 'the outer operation (or the drain after it)', pk['message']))
+        elif not res['done']:
+            if res['rc'] == -9 or res['rc'] is None or res['rc'] == 124 or 'timeout' in str(res['rc']):
+                report('hang', res['begun'], '%s after %d instructions: the operation did not return (process killed after the time limit)'
+                       % (what0, res['begun'] or 0))
+            else:
+                report('hang', res['begun'], '%s after %d instructions: the process ended abnormally (rc %s): %s' % (what0, res['begun'] or 0, res['rc'], res['tail']))
+        if res['panic'] or not res['done']:
+            incomplete.append(what0)
+    missing = {('%s/%s/%d' % c): sorted(allowed[c] - seen_out.get(c, set())) for c in configs if allowed[c] - seen_out.get(c, set())}
+    ctx.correspondence('nested sweep: every outcome of an operation nested at an instruction boundary (24 configurations) is an outcome of the SC model '
+                       'at a step boundary', not hits.get('outcome') and not incomplete,
+                       {'hits': hits, 'incomplete': incomplete[:3]})
+    ctx.coverage['nested_instruction_sweep'] = {'configurations': len(configs), 'experiments': total, 'failures': hits,
+                                                'model_outcomes_not_observed': missing,
+                                                'outcomes_per_configuration': {('%s/%s/%d' % c): len(seen_out.get(c, ())) for c in configs}}
+    ctx.traces += total - sum(hits.values())
+
+
+def nested_replay(c):
+    n = c['nested']
+    cfg = (n['outer'], n['inner'], n['fill'])
+    allowed = nested_model_outcomes([cfg])[cfg]
+    res = nested_run_one(cfg, kstart=n['k'] or 1, timeout=30)
+    row = res['rows'][0] if res['rows'] else None
+    print('configuration', cfg, 'k =', n['k'])
+    print('implementation:', row if row else res['tail'])
+    print('model outcomes:', sorted(allowed))
+    bad = False
+    if res['panic'] and res['panic']['k'] == n['k']:
+        print('REPRODUCED: panic', res['panic']['message']); bad = True
+    if row is None and not res['panic']:
+        print('REPRODUCED: the operation did not return'); bad = True
+    if row and row['outcome'] not in allowed:
+        print('REPRODUCED: outcome not allowed by the model'); bad = True
+    if row and (row['never'] or row['twice']):
+        print('REPRODUCED: payload drop accounting'); bad = True
+    return 1 if bad else 0
+
+
 def replay_case(ctx, path, monitors):
     import json
     case = json.load(open(path))
@@ -659,6 +785,12 @@ def replay_case(ctx, path, monitors):
         for b in bad:
             print('REPRODUCED (model execution):', BADNAME.get(b, b))
         return 1 if bad else 0
+    if c.get('nested'):
+        ctx.harness(['p_nested'])
+        ctx.translate(['channel'])
+        if not ctx.driver('channel', *DRIVER):
+            return 1
+        return nested_replay(c)
     if c.get('history'):
         ctx.harness(['ls_channel'])
         h = [tuple(o) for o in c['history']]
